@@ -166,27 +166,32 @@ Proof.
     inversion H; subst. left. split; [reflexivity|]. split; [reflexivity|]. simpl. apply job_fs_snoc; auto.
 Qed.
 
-Definition job_err (e : exn) : Prop := e = EWrite \/ e = ECompute \/ e = ENoRetries.
+(* what a job can raise, and why: only faults that are in the plan *)
+Definition job_err (p : plan) (m : nat) (e : exn) : Prop :=
+  (e = EWrite /\ exists k, wf p k <> None) \/ (e = ECompute /\ exists i a, cf p i a = true) \/ (e = ENoRetries /\ m = 0).
+Lemma job_err_S : forall p k m e, job_err p (S k) e -> job_err p m e.
+Proof. intros p k m e [H|[H|[_ H]]]; [left|right; left|discriminate]; auto. Qed.
 
 Lemma attempts_write : forall p x done rem a s r s',
   TInv done s ->
   attempts p (write_act A render p (length done) x) (length done) rem a s = (r, s') ->
   grow no_marker s s' /\
-  ((r = Ok tt /\ job_fs (done ++ [x]) [] (s_fs s')) \/ (exists e, r = Err e /\ job_err e /\ TInv done s')).
+  ((r = Ok tt /\ job_fs (done ++ [x]) [] (s_fs s')) \/ (exists e, r = Err e /\ job_err p rem e /\ TInv done s')).
 Proof.
   induction rem as [|rem IH]; intros a s r s' Hi H; simpl in H.
-  - inversion H; subst. split; [apply grow_refl|]. right. exists ENoRetries. unfold job_err; auto.
+  - inversion H; subst. split; [apply grow_refl|]. right. exists ENoRetries. unfold job_err; intuition auto.
   - destruct (cf p (length done) a) eqn:C.
     + destruct rem.
-      * inversion H; subst. split; [apply grow_refl|]. right. exists ECompute. unfold job_err; auto.
-      * apply IH in H; auto.
+      * inversion H; subst. split; [apply grow_refl|]. right. exists ECompute. unfold job_err; intuition eauto.
+      * apply IH in H; auto. destruct H as [G [R|[e [E [J T]]]]]; split; auto. right. exists e. eauto using job_err_S.
     + unfold write_act in H at 1.
       destruct (dump p (TChild (NPart (length done))) (render x) s) as [r1 s1] eqn:D.
-      destruct (dump_part _ _ _ _ _ _ Hi D) as [G [_ [[-> [_ Hj]]|[-> [_ Hi1]]]]].
+      destruct (dump_part _ _ _ _ _ _ Hi D) as [G [_ [[-> [_ Hj]]|[-> [Wn Hi1]]]]].
       * inversion H; subst. split; auto.
       * destruct rem.
-        -- inversion H; subst. split; auto. right. exists EWrite. unfold job_err; auto.
-        -- apply IH in H; auto. destruct H as [G2 R]. split; auto. eapply grow_trans; eauto.
+        -- inversion H; subst. split; auto. right. exists EWrite. unfold job_err; intuition eauto.
+        -- apply IH in H; auto. destruct H as [G2 R]. split; [eapply grow_trans; eauto|].
+           destruct R as [R|[e [E [J T]]]]; auto. right. exists e. eauto using job_err_S.
 Qed.
 
 Lemma tasks_write : forall p m todo done s r s',
@@ -194,7 +199,7 @@ Lemma tasks_write : forall p m todo done s r s',
   tasks A p (write_act A render p) m (length done) todo s = (r, s') ->
   grow no_marker s s' /\
   ((r = Ok tt /\ job_fs (done ++ todo) [] (s_fs s'))
-   \/ (exists e, r = Err e /\ job_err e /\ exists done' rest, done ++ todo = done' ++ rest /\ rest <> [] /\ TInv done' s')).
+   \/ (exists e, r = Err e /\ job_err p m e /\ exists done' rest, done ++ todo = done' ++ rest /\ rest <> [] /\ TInv done' s')).
 Proof.
   induction todo as [|x todo IH]; intros done s r s' Hj H; simpl in H.
   - inversion H; subst. split; [apply grow_refl|]. left. rewrite app_nil_r. auto.
@@ -211,20 +216,20 @@ Qed.
 (* tasks that only compute (collect): no effect on the file system *)
 Lemma attempts_noop : forall p i x rem a s r s',
   attempts p (noop_act A i x) i rem a s = (r, s') ->
-  s' = s /\ (r = Ok tt \/ exists e, r = Err e /\ job_err e).
+  s' = s /\ (r = Ok tt \/ exists e, r = Err e /\ job_err p rem e).
 Proof.
   induction rem as [|rem IH]; intros a s r s' H; simpl in H.
-  - inversion H; subst. split; auto. right. exists ENoRetries. unfold job_err; auto.
-  - destruct (cf p i a).
+  - inversion H; subst. split; auto. right. exists ENoRetries. unfold job_err; intuition auto.
+  - destruct (cf p i a) eqn:C.
     + destruct rem.
-      * inversion H; subst. split; auto. right. exists ECompute. unfold job_err; auto.
-      * apply IH in H. exact H.
+      * inversion H; subst. split; auto. right. exists ECompute. unfold job_err; intuition eauto.
+      * apply IH in H. destruct H as [E [R|[e [E2 J]]]]; split; auto. right. exists e. eauto using job_err_S.
     + unfold noop_act in H at 1. inversion H; subst. auto.
 Qed.
 
 Lemma tasks_noop : forall p m xs i s r s',
   tasks A p (noop_act A) m i xs s = (r, s') ->
-  s' = s /\ (r = Ok tt \/ exists e, r = Err e /\ job_err e).
+  s' = s /\ (r = Ok tt \/ exists e, r = Err e /\ job_err p m e).
 Proof.
   induction xs as [|x xs IH]; intros i s r s' H; simpl in H.
   - inversion H; subst. auto.
@@ -285,17 +290,17 @@ Proof. intros xs. unfold complete_dir. simpl. rewrite lookup_app_none by apply l
 
 (* ---------- the whole save, started on an absent target ---------- *)
 
-Definition save_post (p : plan) (xs : list A) (r : res unit) (s' : st) : Prop :=
+Definition save_post (p : plan) (m : nat) (xs : list A) (r : res unit) (s' : st) : Prop :=
   s_locked s' = false /\ Forall (hent xs) (s_hist s') /\ hent xs (s_fs s') /\
   ((r = Ok tt /\ s_fs s' = match xs with [x] => FFile (render x) | _ => complete_dir xs end)
-   \/ (exists e, r = Err e /\ job_err e /\
+   \/ (exists e, r = Err e /\ job_err p m e /\
         (no_marker (s_fs s')
          \/ (s_fs s' = complete_dir xs /\ e = EWrite /\ exists j, wf p (pred (s_calls s')) = Some (WTorn j))))).
 
 Lemma save_multi : forall p m xs c0 r s',
   (forall x, xs <> [x]) ->
   run_steps A render p m xs canonical_steps (init_st FAbsent c0 false) = (r, s') ->
-  save_post p xs r s'.
+  save_post p m xs r s'.
 Proof.
   intros p m xs c0 r s' Hn H.
   assert (H2 : match run_job (tasks A p (write_act A render p) m 0 xs) (init_st FAbsent c0 false) with
@@ -323,7 +328,9 @@ Proof.
     + inversion H2; subst. unfold save_post. rewrite L2, L. split; auto.
       assert (HE : hent xs (s_fs s')). { destruct R2 as [[N _]|[Fs _]]; [left|right]; auto. }
       split. { rewrite H2'. simpl. apply Forall_app. split; [apply Forall_hent; auto|]. constructor; auto. }
-      split; auto. right. exists EWrite. split; auto. split; [unfold job_err; auto|].
+      assert (Wn : wf p (s_calls (set_locked false s1')) <> None).
+      { destruct R2 as [[_ [_ [W|W]]]|[_ [j W]]]; rewrite W; discriminate. }
+      split; auto. right. exists EWrite. split; auto. split; [left; split; eauto|].
       destruct R2 as [[N _]|[Fs [j W]]]; [left; auto|right]. split; auto. split; auto.
       exists j. rewrite C2. simpl. exact W.
   - inversion H2; subst. unfold save_post.
@@ -335,7 +342,7 @@ Qed.
 
 Lemma save_single : forall p m x c0 r s',
   run_steps A render p m [x] canonical_steps (init_st FAbsent c0 false) = (r, s') ->
-  save_post p [x] r s' /\ no_marker (s_fs s') /\ Forall no_marker (s_hist s').
+  save_post p m [x] r s' /\ no_marker (s_fs s') /\ Forall no_marker (s_hist s').
 Proof.
   intros p m x c0 r s' H.
   assert (H2 : match run_job (tasks A p (noop_act A) m 0 [x]) (init_st FAbsent c0 false) with
@@ -346,14 +353,14 @@ Proof.
   apply run_job_spec in J; [|reflexivity]. destruct J as [s1' [B ->]].
   apply tasks_noop in B. destruct B as [-> [->|[e [-> He]]]].
   - unfold dump in H. simpl in H.
-    assert (K : forall f r0, no_marker f -> (r0 = Ok tt /\ f = FFile (render x) \/ r0 = Err EWrite) ->
+    assert (K : forall f r0, no_marker f -> (r0 = Ok tt /\ f = FFile (render x) \/ r0 = Err EWrite /\ wf p c0 <> None) ->
                (r0, mkst f (S c0) false [f]) = (r, s') ->
-               save_post p [x] r s' /\ no_marker (s_fs s') /\ Forall no_marker (s_hist s')).
+               save_post p m [x] r s' /\ no_marker (s_fs s') /\ Forall no_marker (s_hist s')).
     { intros f r0 N R E. inversion E; subst; simpl. split; [|split; auto].
       unfold save_post; simpl. split; auto. split. { constructor; auto. left; auto. }
       split. { left; auto. }
-      destruct R as [[-> ->]| ->]; [left; auto|right]. exists EWrite. split; auto. split; [unfold job_err; auto|auto]. }
-    destruct (wf p c0) as [[| |j]|]; eapply K; try exact H; unfold no_marker; simpl; auto.
+      destruct R as [[-> ->]|[-> Wn]]; [left; auto|right]. exists EWrite. split; auto. split; [left; split; eauto|auto]. }
+    destruct (wf p c0) as [[| |j]|] eqn:W; eapply K; try exact H; unfold no_marker; simpl; auto; right; split; auto; discriminate.
   - inversion H; subst; simpl. split; [|split; [reflexivity|constructor]].
     unfold save_post; simpl. split; auto. split; [constructor|]. split; [left; reflexivity|].
     right. exists e. split; auto. split; auto. left. reflexivity.
@@ -361,7 +368,7 @@ Qed.
 
 Lemma save_canonical : forall p m xs c0 r s',
   run_steps A render p m xs canonical_steps (init_st FAbsent c0 false) = (r, s') ->
-  save_post p xs r s'.
+  save_post p m xs r s'.
 Proof.
   intros p m xs c0 r s' H.
   destruct xs as [|x [|y xs]].
@@ -386,7 +393,7 @@ Theorem no_overwrite : forall sv p m xs f0 c0 lk,
 Proof. intros. unfold save. rewrite steps_of_canonical. apply no_overwrite_canonical; auto. Qed.
 
 Lemma save_spec : forall sv p m xs c0 r s',
-  save A render sv p m xs (init_st FAbsent c0 false) = (r, s') -> save_post p xs r s'.
+  save A render sv p m xs (init_st FAbsent c0 false) = (r, s') -> save_post p m xs r s'.
 Proof. intros sv p m xs c0 r s' H. unfold save in H. rewrite steps_of_canonical in H. eapply save_canonical; eauto. Qed.
 
 Lemma hent_marker : forall xs f, hent xs f -> child f NMarker <> None -> f = complete_dir xs.
@@ -435,4 +442,375 @@ Proof.
   exfalso. eapply Hat; eauto.
 Qed.
 
+(* ---------- the error reaches the caller ---------- *)
+
+Theorem failure_is_injected_fault : forall sv p m xs f0 c0 e s',
+  1 <= m ->
+  save A render sv p m xs (init_st f0 c0 false) = (Err e, s') ->
+  (e = EExists /\ fs_exists f0 = true)
+  \/ (e = EWrite /\ exists k, wf p k <> None)
+  \/ (e = ECompute /\ exists i a, cf p i a = true).
+Proof.
+  intros sv p m xs f0 c0 e s' Hm H.
+  destruct (fs_exists f0) eqn:X.
+  - rewrite no_overwrite in H by auto. inversion H; subst. auto.
+  - destruct f0; try discriminate. apply save_spec in H.
+    destruct H as [_ [_ [_ [[H _]|[e' [H [[J|[J|[_ J]]] _]]]]]]]; try discriminate; inversion H; subst; auto. lia.
+Qed.
+
+(* success is reported only for a complete output *)
+Theorem ok_implies_complete : forall sv p m xs c0 s',
+  save A render sv p m xs (init_st FAbsent c0 false) = (Ok tt, s') ->
+  s_fs s' = match xs with [x] => FFile (render x) | _ => complete_dir xs end.
+Proof.
+  intros sv p m xs c0 s' H. apply save_spec in H.
+  destruct H as [_ [_ [_ [[_ H]|[e [H _]]]]]]; [exact H|discriminate].
+Qed.
+
+(* a partition whose computation fails on every attempt *)
+Lemma attempts_cf_all : forall p act i rem a s,
+  1 <= rem -> (forall a', a <= a' < a + rem -> cf p i a' = true) ->
+  attempts p act i rem a s = (Err ECompute, s).
+Proof.
+  induction rem as [|rem IH]; intros a s Hr Hc; [lia|]. simpl.
+  rewrite Hc by lia. destruct rem; [reflexivity|]. apply IH; [lia|]. intros a' Ha. apply Hc. lia.
+Qed.
+
+Lemma tasks_cf_err : forall p act m xs off k s r s',
+  1 <= m -> k < length xs -> (forall a, 1 <= a <= m -> cf p (off + k) a = true) ->
+  tasks A p act m off xs s = (r, s') -> exists e, r = Err e.
+Proof.
+  induction xs as [|x xs IH]; intros off k s r s' Hm Hk Hc H; simpl in *; [lia|].
+  destruct (attempts p (act off x) off m 1 s) as [[u|e] s1] eqn:E.
+  - destruct k.
+    + rewrite Nat.add_0_r in Hc. rewrite attempts_cf_all in E; auto; [discriminate|]. intros a' Ha. apply Hc. lia.
+    + eapply (IH (S off) k); eauto; [lia|]. intros a Ha. replace (S off + k) with (off + S k) by lia. auto.
+  - inversion H; subst. eauto.
+Qed.
+
+Lemma run_job_err : forall (body : st -> res unit * st) s r s',
+  s_locked s = false -> run_job body s = (r, s') ->
+  (forall r1 s1, body (set_locked true s) = (r1, s1) -> exists e, r1 = Err e) -> exists e, r = Err e.
+Proof.
+  intros body s r s' L H Hb. apply run_job_spec in H; auto. destruct H as [s1 [B _]]. eauto.
+Qed.
+
+Theorem compute_failure_surfaces : forall sv p m xs c0 i r s',
+  1 <= m -> i < length xs -> (forall a, 1 <= a <= m -> cf p i a = true) ->
+  save A render sv p m xs (init_st FAbsent c0 false) = (r, s') ->
+  exists e, r = Err e /\ (e = ECompute \/ e = EWrite) /\ child (s_fs s') NMarker = None.
+Proof.
+  intros sv p m xs c0 i r s' Hm Hi Hc H.
+  assert (E : exists e, r = Err e).
+  { unfold save in H. rewrite steps_of_canonical in H.
+    destruct xs as [|x [|y xs]]; [simpl in Hi; lia| |].
+    - assert (H2 : match run_job (tasks A p (noop_act A) m 0 [x]) (init_st FAbsent c0 false) with
+               | (Ok _, s1) => dump p TRoot (render x) s1
+               | (Err e, s1) => (Err e, s1) end = (r, s')) by exact H.
+      destruct (run_job (tasks A p (noop_act A) m 0 [x]) (init_st FAbsent c0 false)) as [r1 s1] eqn:J.
+      eapply run_job_err in J; [|reflexivity|].
+      + destruct J as [e ->]. inversion H2; subst. eauto.
+      + intros r2 s2 B. eapply (tasks_cf_err _ _ _ _ 0 i); eauto.
+    - assert (H2 : match run_job (tasks A p (write_act A render p) m 0 (x :: y :: xs)) (init_st FAbsent c0 false) with
+               | (Ok _, s1) => match dump p (TChild NMarker) [] s1 with
+                               | (Ok _, s2) => (Ok tt, s2) | (Err e, s2) => (Err e, s2) end
+               | (Err e, s1) => (Err e, s1) end = (r, s')) by exact H.
+      destruct (run_job (tasks A p (write_act A render p) m 0 (x :: y :: xs)) (init_st FAbsent c0 false)) as [r1 s1] eqn:J.
+      eapply run_job_err in J; [|reflexivity|].
+      + destruct J as [e ->]. inversion H2; subst. eauto.
+      + intros r2 s2 B. eapply (tasks_cf_err _ _ _ _ 0 i); eauto. }
+  destruct E as [e ->]. exists e. split; auto.
+  assert (P := save_spec _ _ _ _ _ _ _ H).
+  destruct P as [_ [_ [_ [[P _]|[e' [P [J R]]]]]]]; [discriminate|]. inversion P; subst e'.
+  destruct J as [[-> _]|[[-> _]|[_ J]]]; [| |lia].
+  - (* a write fault came first: then it was not the marker write, because the job never finished *)
+    split; auto. destruct R as [R|[Fs _]]; auto.
+    (* the marker write is only reached after the write job succeeded, which it cannot *)
+    exfalso. unfold save in H. rewrite steps_of_canonical in H.
+    destruct xs as [|x [|y xs]]; [simpl in Hi; lia| |].
+    + apply save_single in H. destruct H as [_ [N _]]. rewrite Fs in N. unfold no_marker in N.
+      rewrite complete_dir_marker in N. discriminate.
+    + assert (H2 : match run_job (tasks A p (write_act A render p) m 0 (x :: y :: xs)) (init_st FAbsent c0 false) with
+               | (Ok _, s1) => match dump p (TChild NMarker) [] s1 with
+                               | (Ok _, s2) => (Ok tt, s2) | (Err e, s2) => (Err e, s2) end
+               | (Err e, s1) => (Err e, s1) end = (Err EWrite, s')) by exact H.
+      destruct (run_job (tasks A p (write_act A render p) m 0 (x :: y :: xs)) (init_st FAbsent c0 false)) as [r1 s1] eqn:J.
+      assert (J' := J). apply run_job_spec in J'; [|reflexivity]. destruct J' as [s1' [B ->]].
+      assert (Eb : exists e, r1 = Err e) by (eapply (tasks_cf_err _ _ _ _ 0 i); eauto).
+      destruct Eb as [e ->]. inversion H2; subst.
+      change 0 with (length (@nil A)) in B. apply tasks_write in B; [|left; auto].
+      destruct B as [_ [[B _]|[e' [_ [_ [d [rest [_ [_ [tl [Ht Hj]]]]]]]]]]]; [discriminate|].
+      assert (N : no_marker (s_fs s1')) by (eapply job_fs_no_marker; eauto).
+      simpl in Fs. rewrite Fs in N. unfold no_marker in N. rewrite complete_dir_marker in N. discriminate.
+  - split; auto. destruct R as [R|[_ [R _]]]; auto. discriminate.
+Qed.
+
+(* ---------- the context remains usable ---------- *)
+
+Lemma tasks_noop_ok : forall (B : Type) p m (ys : list B) i s,
+  1 <= m -> (forall j a, cf p j a = false) -> tasks B p (noop_act B) m i ys s = (Ok tt, s).
+Proof.
+  induction ys as [|y ys IH]; intros i s Hm Hc; simpl; auto.
+  destruct m; [lia|]. simpl. rewrite Hc. unfold noop_act at 1. apply IH; auto.
+Qed.
+
+Theorem context_usable_after_save : forall sv p m xs f0 c0 r s',
+  save A render sv p m xs (init_st f0 c0 false) = (r, s') ->
+  s_locked s' = false /\
+  forall (B : Type) p2 m2 (ys : list B), 1 <= m2 -> (forall j a, cf p2 j a = false) ->
+    collect_job B p2 m2 ys s' = (Ok tt, s').
+Proof.
+  intros sv p m xs f0 c0 r s' H.
+  assert (L : s_locked s' = false).
+  { destruct (fs_exists f0) eqn:X.
+    - rewrite no_overwrite in H by auto. inversion H; subst. reflexivity.
+    - destruct f0; try discriminate. apply save_spec in H. apply H. }
+  split; auto. intros B p2 m2 ys Hm Hc. unfold collect_job, run_job. rewrite L.
+  rewrite tasks_noop_ok; auto. f_equal. destruct s'; simpl in *. subst. reflexivity.
+Qed.
+
+(* ---------- a write that fails on every attempt ---------- *)
+
+Lemma tasks_app : forall p act m xs ys i s,
+  tasks A p act m i (xs ++ ys) s =
+  match tasks A p act m i xs s with
+  | (Ok _, s1) => tasks A p act m (i + length xs) ys s1
+  | (Err e, s1) => (Err e, s1)
+  end.
+Proof.
+  induction xs as [|x xs IH]; intros ys i s; simpl.
+  - rewrite Nat.add_0_r. reflexivity.
+  - destruct (attempts p (act i x) i m 1 s) as [[u|e] s1]; auto.
+    rewrite IH. replace (S i + length xs) with (i + S (length xs)) by lia. reflexivity.
+Qed.
+
+Lemma attempts_ok_first : forall p x done rem a s,
+  TInv done s -> cf p (length done) a = false -> wf p (s_calls s) = None ->
+  exists s', attempts p (write_act A render p (length done) x) (length done) (S rem) a s = (Ok tt, s')
+             /\ s_calls s' = S (s_calls s) /\ s_locked s' = s_locked s /\ job_fs (done ++ [x]) [] (s_fs s').
+Proof.
+  intros p x done rem a s Hi Hc Hw. simpl. rewrite Hc. unfold write_act at 1.
+  destruct (dump p (TChild (NPart (length done))) (render x) s) as [r1 s1] eqn:D.
+  destruct (dump_part _ _ _ _ _ _ Hi D) as [[L _] [C [[-> [_ Hj]]|[_ [Wn _]]]]]; [|contradiction].
+  exists s1. auto.
+Qed.
+
+Lemma tasks_prefix_ok : forall p m todo done s,
+  1 <= m -> (forall i a, cf p i a = false) -> job_fs done [] (s_fs s) ->
+  (forall k, s_calls s <= k < s_calls s + length todo -> wf p k = None) ->
+  exists s', tasks A p (write_act A render p) m (length done) todo s = (Ok tt, s')
+             /\ s_calls s' = s_calls s + length todo /\ s_locked s' = s_locked s
+             /\ job_fs (done ++ todo) [] (s_fs s').
+Proof.
+  induction todo as [|x todo IH]; intros done s Hm Hc Hj Hw; simpl.
+  - exists s. rewrite app_nil_r. repeat split; auto.
+  - destruct m; [lia|].
+    assert (Hi : TInv done s) by (exists []; split; [left; auto|auto]).
+    destruct (attempts_ok_first p x done m 1 s Hi (Hc _ _)) as [s1 [E [C1 [L1 Hj1]]]].
+    { apply Hw. simpl. lia. }
+    rewrite E.
+    replace (S (length done)) with (length (done ++ [x])) by (rewrite app_length; simpl; lia).
+    destruct (IH (done ++ [x]) s1) as [s2 [E2 [C2 [L2 Hj2]]]]; auto.
+    { intros k Hk. apply Hw. simpl. lia. }
+    exists s2. rewrite <- app_assoc in Hj2. simpl in Hj2. repeat split; auto; simpl; try lia. congruence.
+Qed.
+
+Lemma attempts_all_wfail : forall p x done rem a s r s',
+  TInv done s -> (forall a', cf p (length done) a' = false) -> 1 <= rem ->
+  (forall k, s_calls s <= k < s_calls s + rem -> wf p k <> None) ->
+  attempts p (write_act A render p (length done) x) (length done) rem a s = (r, s') ->
+  r = Err EWrite /\ s_calls s' = s_calls s + rem.
+Proof.
+  induction rem as [|rem IH]; intros a s r s' Hi Hc Hr Hw H; [lia|]. simpl in H.
+  rewrite Hc in H. unfold write_act in H at 1.
+  destruct (dump p (TChild (NPart (length done))) (render x) s) as [r1 s1] eqn:D.
+  destruct (dump_part _ _ _ _ _ _ Hi D) as [_ [C [[_ [Wn _]]|[-> [_ Hi1]]]]].
+  - exfalso. apply (Hw (s_calls s)); [lia|auto].
+  - destruct rem.
+    + inversion H; subst. split; auto. lia.
+    + apply IH in H; auto; [|lia|].
+      * destruct H as [-> C2]. split; auto. lia.
+      * intros k Hk. apply Hw. lia.
+Qed.
+
+Lemma split_at : forall (xs : list A) k, k < length xs ->
+  exists d x rest, xs = d ++ x :: rest /\ length d = k.
+Proof.
+  induction xs as [|y xs IH]; intros k Hk; simpl in Hk; [lia|].
+  destruct k.
+  - exists [], y, xs. auto.
+  - destruct (IH k) as [d [x [rest [-> L]]]]; [lia|]. exists (y :: d), x, rest. simpl. auto.
+Qed.
+
+Lemma run_canonical_multi : forall p m xs s, (forall x, xs <> [x]) ->
+  run_steps A render p m xs canonical_steps s =
+  if fs_exists (s_fs s) then (Err EExists, s) else
+  match run_job (tasks A p (write_act A render p) m 0 xs) s with
+  | (Ok _, s1) => match dump p (TChild NMarker) [] s1 with
+                  | (Ok _, s2) => (Ok tt, s2) | (Err e, s2) => (Err e, s2) end
+  | (Err e, s1) => (Err e, s1) end.
+Proof.
+  intros p m xs s Hn. destruct xs as [|x [|y xs]]; [| exfalso; eapply Hn; reflexivity |]; reflexivity.
+Qed.
+
+Theorem write_failure_surfaces_part : forall sv p m xs c0 k r s',
+  1 <= m -> length xs <> 1 -> k < length xs -> (forall i a, cf p i a = false) ->
+  (forall k', c0 <= k' < c0 + k -> wf p k' = None) ->
+  (forall k', c0 + k <= k' < c0 + k + m -> wf p k' <> None) ->
+  save A render sv p m xs (init_st FAbsent c0 false) = (r, s') ->
+  r = Err EWrite /\ s_calls s' = c0 + k + m /\ child (s_fs s') NMarker = None.
+Proof.
+  intros sv p m xs c0 k r s' Hm Hn Hk Hc Hok Hbad H.
+  assert (Hn' : forall x, xs <> [x]) by (intros x E; subst; apply Hn; reflexivity).
+  unfold save in H. rewrite steps_of_canonical, run_canonical_multi in H by auto. simpl fs_exists in H. cbv iota in H.
+  destruct (split_at xs k Hk) as [d [x [rest [-> Ld]]]].
+  destruct (run_job (tasks A p (write_act A render p) m 0 (d ++ x :: rest)) (init_st FAbsent c0 false)) as [r1 s1] eqn:J.
+  apply run_job_spec in J; [|reflexivity]. destruct J as [s1' [B ->]].
+  rewrite tasks_app in B.
+  destruct (tasks_prefix_ok p m d [] (set_locked true (init_st FAbsent c0 false))) as [s2 [E2 [C2 [L2 Hj2]]]]; auto.
+  { left; auto. }
+  { simpl. intros k' Hk'. apply Hok. lia. }
+  simpl in E2, C2, Hj2. rewrite E2 in B. simpl in B.
+  assert (T : TInv d s2) by (exists []; split; [left; auto|auto]).
+  destruct (attempts p (write_act A render p (length d) x) (length d) m 1 s2) as [r3 s3] eqn:E3.
+  assert (E3' := E3).
+  apply attempts_all_wfail in E3; auto.
+  - destruct E3 as [-> C3]. inversion B; subst. inversion H; subst. simpl.
+    split; auto. split; [lia|].
+    apply attempts_write in E3'; auto.
+    destruct E3' as [_ [[Q _]|[e' [_ [_ [tl [Ht Hj]]]]]]]; [discriminate|].
+    eapply job_fs_no_marker; eauto.
+  - simpl. intros k' Hk'. apply Hbad. lia.
+Qed.
+
+Theorem write_failure_surfaces_marker : forall sv p m xs c0 r s',
+  1 <= m -> length xs <> 1 -> (forall i a, cf p i a = false) ->
+  (forall k', c0 <= k' < c0 + length xs -> wf p k' = None) ->
+  wf p (c0 + length xs) <> None ->
+  save A render sv p m xs (init_st FAbsent c0 false) = (r, s') ->
+  r = Err EWrite /\ s_calls s' = c0 + length xs + 1 /\
+  forall i x, nth_error xs i = Some x -> child (s_fs s') (NPart i) = Some (render x).
+Proof.
+  intros sv p m xs c0 r s' Hm Hn Hc Hok Hbad H.
+  assert (Hn' : forall x, xs <> [x]) by (intros x E; subst; apply Hn; reflexivity).
+  unfold save in H. rewrite steps_of_canonical, run_canonical_multi in H by auto. simpl fs_exists in H. cbv iota in H.
+  destruct (run_job (tasks A p (write_act A render p) m 0 xs) (init_st FAbsent c0 false)) as [r1 s1] eqn:J.
+  apply run_job_spec in J; [|reflexivity]. destruct J as [s1' [B ->]].
+  destruct (tasks_prefix_ok p m xs [] (set_locked true (init_st FAbsent c0 false))) as [s2 [E2 [C2 [L2 Hj2]]]]; auto.
+  { left; auto. }
+  simpl in E2, C2, Hj2. rewrite E2 in B. inversion B; subst.
+  destruct (dump p (TChild NMarker) [] (set_locked false s1')) as [r2 s2] eqn:D.
+  apply dump_marker with (xs := xs) in D; [|exact Hj2].
+  destruct D as [_ [C3 [_ [[_ [W _]]|[-> R]]]]].
+  - simpl in W. rewrite C2 in W. contradiction.
+  - inversion H; subst. split; auto. split; [simpl in C3; lia|].
+    intros i x Hx.
+    assert (Q : forall ch, s_fs s' = FDir (part_files 0 xs ++ ch) -> child (s_fs s') (NPart i) = Some (render x)).
+    { intros ch ->. simpl. apply lookup_app_some. apply (lookup_part_in xs 0 i x Hx). }
+    destruct R as [[_ [[[F0 [X0 _]]|F1] _]]|[Fs _]].
+    + subst xs. destruct i; discriminate.
+    + apply (Q []). exact F1.
+    + apply (Q [(NMarker, [])]). exact Fs.
+Qed.
+
+Theorem write_failure_surfaces_single : forall sv p m x c0 r s',
+  1 <= m -> (forall a, cf p 0 a = false) -> wf p c0 <> None ->
+  save A render sv p m [x] (init_st FAbsent c0 false) = (r, s') ->
+  r = Err EWrite /\ s_calls s' = S c0.
+Proof.
+  intros sv p m x c0 r s' Hm Hc Hw H.
+  unfold save in H. rewrite steps_of_canonical in H.
+  assert (H2 : match run_job (tasks A p (noop_act A) m 0 [x]) (init_st FAbsent c0 false) with
+               | (Ok _, s1) => dump p TRoot (render x) s1
+               | (Err e, s1) => (Err e, s1) end = (r, s')) by exact H.
+  clear H. unfold run_job in H2. simpl s_locked in H2. cbv iota in H2.
+  destruct m; [lia|]. simpl tasks in H2. rewrite Hc in H2. unfold noop_act in H2 at 1.
+  unfold dump in H2. simpl in H2.
+  destruct (wf p c0) as [[| |j]|]; [| | |contradiction]; inversion H2; subst; auto.
+Qed.
+
+(* ---------- reading a marked directory back ---------- *)
+
+Lemma filter_part_files : forall xs i, filter is_part (part_files i xs) = part_files i xs.
+Proof. induction xs as [|x xs IH]; intros i; simpl; [reflexivity|]. rewrite IH. reflexivity. Qed.
+
+Lemma sort_part_files : forall xs i, sort_entries (part_files i xs) = part_files i xs.
+Proof.
+  induction xs as [|x xs IH]; intros i; [reflexivity|].
+  change (sort_entries (part_files i (x :: xs))) with (insert_entry (NPart i, render x) (sort_entries (part_files (S i) xs))).
+  rewrite IH. destruct xs as [|y xs]; simpl; [reflexivity|].
+  replace (i <=? S i) with true by (symmetry; apply Nat.leb_le; lia). reflexivity.
+Qed.
+
+Section Read.
+Variable B : Type.
+Variable items : A -> list B.
+Variable decode : bytes -> res (list B).
+Hypothesis decode_render : forall x, decode (render x) = Ok (items x).
+
+Lemma read_part_files : forall xs i, read_files B decode (part_files i xs) = Ok (concat (map items xs)).
+Proof.
+  induction xs as [|x xs IH]; intros i; simpl; [reflexivity|].
+  rewrite decode_render, IH. reflexivity.
+Qed.
+
+Lemma read_complete : forall xs, read_target B decode (complete_dir xs) = Ok (concat (map items xs)).
+Proof.
+  intros xs. unfold complete_dir, read_target. rewrite filter_app, filter_part_files. simpl.
+  rewrite app_nil_r, sort_part_files. apply read_part_files.
+Qed.
+
+Theorem read_marked_dir : forall sv p m xs c0 r s',
+  save A render sv p m xs (init_st FAbsent c0 false) = (r, s') ->
+  forall f, In f (s_hist s' ++ [s_fs s']) -> child f NMarker <> None ->
+  read_target B decode f = Ok (concat (map items xs)).
+Proof.
+  intros sv p m xs c0 r s' H f Hin Hm.
+  destruct (marker_implies_complete _ _ _ _ _ _ _ H f Hin Hm) as [-> _]. apply read_complete.
+Qed.
+End Read.
+
 End S.
+
+(* ---------- the text saver's rendering is inverted by the text reader's line splitting ---------- *)
+
+Lemma split_lines_line : forall l cur rest, ~ In nl l ->
+  split_lines cur (l ++ nl :: rest) = (rev cur ++ l) :: split_lines [] rest.
+Proof.
+  induction l as [|c l IH]; intros cur rest Hn; simpl.
+  - rewrite app_nil_r. reflexivity.
+  - destruct (N.eqb c nl) eqn:E.
+    + apply N.eqb_eq in E. exfalso. apply Hn. left. auto.
+    + rewrite IH by (intros Hin; apply Hn; right; auto). simpl. rewrite <- app_assoc. reflexivity.
+Qed.
+
+Lemma decode_render_text : forall ls, Forall (fun l => ~ In nl l) ls -> decode_text (render_text ls) = Ok ls.
+Proof.
+  intros ls H. unfold decode_text. f_equal. induction H as [|l ls Hl _ IH]; [reflexivity|].
+  unfold render_text. simpl. rewrite <- app_assoc. simpl.
+  rewrite split_lines_line by auto. simpl. f_equal. exact IH.
+Qed.
+
+(* read_target with a decoder that is only known to invert render on the partitions actually saved *)
+Lemma read_part_files_on : forall (A B : Type) (render : A -> bytes) (items : A -> list B) decode xs i,
+  Forall (fun x => decode (render x) = Ok (items x)) xs ->
+  read_files B decode (part_files A render i xs) = Ok (concat (map items xs)).
+Proof.
+  intros A B render items decode xs. induction xs as [|x xs IH]; intros i H; simpl; [reflexivity|].
+  inversion H; subst. rewrite H2, IH by auto. reflexivity.
+Qed.
+
+Theorem read_marked_dir_text : forall p m (xs : list (list bytes)) c0 r s',
+  Forall (Forall (fun l => ~ In nl l)) xs ->
+  save (list bytes) render_text SvText p m xs (init_st FAbsent c0 false) = (r, s') ->
+  forall f, In f (s_hist s' ++ [s_fs s']) -> child f NMarker <> None ->
+  read_target bytes decode_text f = Ok (concat xs).
+Proof.
+  intros p m xs c0 r s' Hl H f Hin Hm.
+  destruct (marker_implies_complete _ _ _ _ _ _ _ _ _ H f Hin Hm) as [-> _].
+  unfold complete_dir, read_target. rewrite filter_app, filter_part_files. simpl.
+  rewrite app_nil_r, sort_part_files.
+  rewrite (read_part_files_on _ _ _ (fun x => x)).
+  - rewrite map_id. reflexivity.
+  - eapply Forall_impl; [|exact Hl]. intros a Ha. apply decode_render_text. exact Ha.
+Qed.
